@@ -721,7 +721,7 @@ func init() {
 		// scope (the functions the property's own rules are about and their callees), not by this list
 		for _, p := range allProps {
 			addRule(p, &core.Rule{ID: p + "." + g.suffix, Floor: 1, Late: true, Run: func(c *core.Ctx) { skipTableRule(c, g) },
-				Doc: "Skip table of " + g.what + ": for every function, (a) the conditions under which a branch ends the function or the current loop iteration without any effect while its other edge leads to effects (`continue`, early `return`, the implicit else of a trailing `if`), (b) the returns that can be reached before a `defer` was registered, and (c) the effects (calls, stores) that every completed iteration of a loop performs, equal the table generated from the reviewed tree (rules/skips_gen.go). An added shortcut (`if len(x) == 0 { continue }`, `if !changed { return }`), a cleanup registered one statement too late, or a statement moved behind a `continue` changes exactly these rows."})
+				Doc: "Structure table of " + g.what + ": for every function in the anchored scope of this property (the functions its other rules touch and what they call, two levels deep), the rows computed from the SSA of the current tree equal the rows generated from the reviewed tree (rules/skips_gen.go). Row kinds: skip conditions (an edge that ends the function or the loop iteration without any effect while the other edge has effects); returns that precede the registration of a `defer`; effects every completed loop iteration performs; every effect (call, non-local store with the value stored, map update, append, defer, go, send, assignment to a captured variable) with its innermost guard and its predecessor on the dominator tree; what each edge of every branch leads to and which values it contributes to the join; where each loop goes when exhausted; what the function returns under which innermost guard; for loop-free functions with at most 16 conditions the exact condition (decision table) of every return, effect and phi input; every branch condition; the constants used (message text excluded) and every arithmetic operation; the loop depth at which memory-resident locals are declared. All renderings are independent of local names, log lines, if/else orientation, guard-clause style and temporary variables (checked by seven whole-tree transformations)."})
 		}
 	}
 }
